@@ -145,6 +145,12 @@ Fixpoint json_shown (rows : list row) (cur : list string) : list entry :=
 
 Definition rel_expected (c : coll) : list entry := map fst (bindings c []).
 
+(** every name a listing displays is spelled the way the command line accepts
+    it: normalised for the root's auto-dash setting *)
+Definition entry_normalized (ad : bool) (e : entry) : bool :=
+  let '(path, key, _, als) := e in
+  forallb (normalized ad) (path ++ key :: als).
+
 (** view: 1 flat, 2 nested, 3 json *)
 Definition listing_ok (c : coll) (view : nat) (obs : result (list row)) : bool :=
   match bindings c [] with
@@ -153,13 +159,17 @@ Definition listing_ok (c : coll) (view : nat) (obs : result (list row)) : bool :
       match obs with
       | Err _ => false
       | Ok rows =>
-          match view with
-          | 1 => match flat_shown rows with
-                 | Some shown => same_entries (flat_expected c) shown
-                 | None => false
-                 end
-          | 2 => same_entries (rel_expected c) (nested_shown rows [])
-          | _ => same_entries (rel_expected c) (json_shown rows [])
+          let shown :=
+            match view with
+            | 1 => flat_shown rows
+            | 2 => Some (nested_shown rows [])
+            | _ => Some (json_shown rows [])
+            end in
+          match shown with
+          | None => false
+          | Some sh =>
+              same_entries (match view with 1 => flat_expected c | _ => rel_expected c end) sh &&
+              forallb (entry_normalized (c_auto_dash c)) sh
           end
       end
   end.
